@@ -803,6 +803,14 @@ func TestVerifC01(t *testing.T) {
 			v.Oracle(false, "harness:equivocating-leader-script-first-branch-does-not-commit:"+cons, fmt.Sprintf("replica 1 committed %v", res7.commits["r1n0"]), nil)
 		}
 		emitHist(cons, 4, res7.hist.spec, res7, "script-equivocating-leader-common-voter")
+		res8, err := c01GenesisFork(cons, 7)
+		if err != nil {
+			t.Fatalf("world: %v", err)
+		}
+		if len(res8.commits["r1n0"]) < 1 {
+			v.Oracle(false, "harness:genesis-fork-script-main-chain-does-not-commit:"+cons, fmt.Sprintf("replica 1 committed %v", res8.commits["r1n0"]), nil)
+		}
+		emitHist(cons, 4, res8.hist.spec, res8, "script-late-fork-on-genesis-under-a-lock")
 		res6, err := c01FetchedBeforeProposal(cons, 7)
 		if err != nil {
 			t.Fatalf("world: %v", err)
@@ -2152,6 +2160,116 @@ func c01EquivocatingLeader(cons string, seed int64) (*c01Result, error) {
 				okb = false
 			}
 		}
+	}
+	return c01Finish(h, live, 0), nil
+}
+
+// c01GenesisFork: the lock applies to every proposal, also to a late block placed directly on genesis and
+// justified by the genesis certificate (which always verifies). Replicas 1 and 2 are locked on b1 and replica 1
+// has committed it; a replica 2 that votes for the genesis fork helps replicas 2 and 3 commit it next to b1.
+func c01GenesisFork(cons string, seed int64) (*c01Result, error) {
+	spec := wSpec{consensus: cons, n: 4, byz: []hotstuff.ID{4}, seed: seed}
+	for i := 0; i < 20; i++ {
+		spec.leaders = append(spec.leaders, 4)
+	}
+	w, err := newWorld(spec)
+	if err != nil {
+		return nil, err
+	}
+	h := newC01Hist(w, spec)
+	B := w.nodes[NodeID{ReplicaID: 4}]
+	h1, h2, h3 := w.nodes[NodeID{ReplicaID: 1}], w.nodes[NodeID{ReplicaID: 2}], w.nodes[NodeID{ReplicaID: 3}]
+	live := []*wNode{h1, h2, h3}
+	for _, id := range w.order {
+		w.partition[id] = 0
+	}
+	flush := func() {
+		for guard := 0; len(w.pending) > 0 && guard < 10000; guard++ {
+			m := w.pending[0]
+			w.pending = w.pending[1:]
+			to := w.nodes[m.to]
+			if to.byz {
+				w.byzHandle(to, m.payload)
+				h.observe(nil)
+				continue
+			}
+			if p, ok := m.payload.(hotstuff.ProposeMsg); ok {
+				w.regProposal(&p)
+			}
+			to.eventLoop.AddEvent(m.payload)
+			w.drain(to)
+			h.observe(to)
+		}
+	}
+	k := 0
+	mk := func(view hotstuff.View, parent hotstuff.Hash, qc hotstuff.QuorumCert) *hotstuff.Block {
+		k++
+		b := hotstuff.NewBlock(parent, qc, &clientpb.Batch{Commands: []*clientpb.Command{{ClientID: 99, SequenceNumber: uint64(k), Data: []byte("byz")}}}, view, 4)
+		w.regBlock(b)
+		B.blockchain.Store(b)
+		return b
+	}
+	send := func(b *hotstuff.Block, to ...*wNode) {
+		for _, nd := range to {
+			w.byzSendTo(B, nd, hotstuff.ProposeMsg{ID: 4, Block: b})
+		}
+		flush()
+	}
+	certify := func(b *hotstuff.Block) (hotstuff.QuorumCert, bool) {
+		if pc, err := B.auth.CreatePartialCert(b); err == nil {
+			B.votesSeen[b.Hash()] = append(B.votesSeen[b.Hash()], pc)
+		}
+		w.byzAssemble(B)
+		h.observe(nil)
+		for _, q := range w.qcs {
+			if q.BlockHash() == b.Hash() {
+				return q, true
+			}
+		}
+		return hotstuff.QuorumCert{}, false
+	}
+	newview := func(qc hotstuff.QuorumCert, to ...*wNode) {
+		for _, nd := range to {
+			w.byzSendTo(B, nd, hotstuff.NewViewMsg{ID: 4, SyncInfo: hotstuff.NewSyncInfoWith(qc), FromNetwork: true})
+		}
+		flush()
+	}
+	gen := hotstuff.GetGenesis()
+	genQC := B.viewStates.HighQC()
+	// views 1, 2 for everybody, view 3 for replicas 1 and 2 (they lock b1), view 4 for replica 1 (it commits b1)
+	b1 := mk(1, gen.Hash(), genQC)
+	send(b1, h1, h2, h3)
+	q1, ok1 := certify(b1)
+	if !ok1 {
+		return c01Finish(h, live, 0), nil
+	}
+	b2 := mk(2, b1.Hash(), q1)
+	send(b2, h1, h2, h3)
+	q2, ok2 := certify(b2)
+	if !ok2 {
+		return c01Finish(h, live, 0), nil
+	}
+	b3 := mk(3, b2.Hash(), q2)
+	send(b3, h1, h2)
+	q3, ok3 := certify(b3)
+	if !ok3 {
+		return c01Finish(h, live, 0), nil
+	}
+	b4 := mk(4, b3.Hash(), q3)
+	send(b4, h1)
+	// replicas 2 and 3 are walked to view 4; then the late block f directly on genesis, justified by the
+	// always-valid genesis certificate: replica 3 (still locked on genesis) may vote, replica 2 (locked on b1) must not
+	newview(q2, h3)
+	newview(q3, h2, h3)
+	f := mk(4, gen.Hash(), genQC)
+	send(f, h2, h3)
+	parent := f
+	q, okf := certify(f)
+	for v := 5; v <= 8 && okf; v++ {
+		nb := mk(hotstuff.View(v), parent.Hash(), q)
+		send(nb, h2, h3)
+		q, okf = certify(nb)
+		parent = nb
 	}
 	return c01Finish(h, live, 0), nil
 }
